@@ -48,6 +48,24 @@ class MatcherPolicy(RepoPolicy):
                     if ok:
                         from ..cfg import Target
                         return Target('opaque', 'lib-table:%s[...]' % tbl, raises=frozenset(raises), role='lib')
+            if not assigns:
+                # a loop variable ranging over a module-level table of (.., library function) pairs
+                for lp in [n for n in walk_own(fn.node) if isinstance(n, ast.For) and isinstance(n.iter, ast.Name) and isinstance(n.target, ast.Tuple)]:
+                    idx = [i for i, t_ in enumerate(lp.target.elts) if isinstance(t_, ast.Name) and t_.id == call.func.id]
+                    lit = fn.module.globals.get(lp.iter.id)
+                    if idx and isinstance(lit, (ast.Tuple, ast.List)) and lit.elts and all(isinstance(e, ast.Tuple) and len(e.elts) > idx[0] for e in lit.elts):
+                        raises = set()
+                        ok = True
+                        for e in lit.elts:
+                            val = e.elts[idx[0]]
+                            d = self.dotted(val, fn.module) if isinstance(val, ast.Attribute) else None
+                            if d in LIB_FUNCS:
+                                raises |= set(self._atoms(LIB_FUNCS[d]))
+                            else:
+                                ok = False
+                        if ok:
+                            from ..cfg import Target
+                            return Target('opaque', 'lib-table:%s[...]' % lp.iter.id, raises=frozenset(raises), role='lib')
         return t
 
     def subscript_raises(self, node, frame):
@@ -457,4 +475,30 @@ def operator_table(repo, tc, opf):
                     if bad:
                         return False, 'operator table %s wrong for %s' % (m, bad), f
                     return True, 'lookup table %s (unknown operators are a totality obligation of C14.a)' % m, f
+            # table of (symbol, operator-module function) pairs walked by a loop that compares the symbol and applies the function
+            if isinstance(lit, (ast.Tuple, ast.List)) and lit.elts and all(isinstance(e, ast.Tuple) and len(e.elts) == 2 for e in lit.elts) and \
+                    any(isinstance(x, ast.Name) and x.id == name for x in ast.walk(f.node)):
+                m = {}
+                for e in lit.elts:
+                    k, v = e.elts
+                    if isinstance(k, ast.Constant) and isinstance(v, ast.Attribute) and v.attr in OPMOD:
+                        m[k.value] = OPMOD[v.attr]
+                loops = [l for l in walk_own(f.node) if isinstance(l, ast.For) and isinstance(l.iter, ast.Name) and l.iter.id == name and
+                         isinstance(l.target, ast.Tuple) and len(l.target.elts) == 2 and all(isinstance(t, ast.Name) for t in l.target.elts)]
+                if m and len(loops) == 1:
+                    sym, fn_ = [t.id for t in loops[0].target.elts]
+                    applied = [c for c in ast.walk(loops[0]) if isinstance(c, ast.Call) and isinstance(c.func, ast.Name) and c.func.id == fn_]
+                    arg_ok = len(applied) == 1 and len(applied[0].args) == 2 and isinstance(applied[0].args[0], ast.Name) and applied[0].args[0].id == rec and \
+                        isinstance(applied[0].args[1], ast.Subscript) and isinstance(applied[0].args[1].value, ast.Name) and applied[0].args[1].value.id == flt and \
+                        isinstance(applied[0].args[1].slice, ast.Constant) and applied[0].args[1].slice.value == 'value'
+                    guards = [g for g in ast.walk(loops[0]) if isinstance(g, ast.If) and isinstance(g.test, ast.Compare) and len(g.test.ops) == 1 and
+                              isinstance(g.test.ops[0], ast.Eq) and any(isinstance(x, ast.Name) and x.id == sym for x in ast.walk(g.test)) and
+                              any(x is applied[0] for x in ast.walk(g))] if applied else []
+                    dflt = any(isinstance(n, ast.Assign) and isinstance(n.value, ast.Constant) and n.value.value is False for n in walk_own(f.node))
+                    bad = [k for k in OPS if m.get(k) != OPS[k]]
+                    extra = [k for k in m if k not in OPS]
+                    if bad or extra or not arg_ok or len(guards) != 1 or not dflt:
+                        return False, 'operator table %s (wrong / missing: %s, unexpected: %s, applied to (recorded, filter value): %s, under `operator == symbol`: %s, ' \
+                                      'default False: %s)' % (m, bad, extra, arg_ok, len(guards) == 1, dflt), f
+                    return True, 'pair table %s walked by one loop, unknown operator keeps the False default' % m, f
     raise AnalysisError('anchor-lost role=operator comparison table')
